@@ -284,10 +284,10 @@ func pickConfigs(rng *rand.Rand, thorough bool) []config {
 	if thorough {
 		out := []config{{"all", "none", "css"}, {"off", "none", "css"}}
 		perm := rng.Perm(len(targets) - 1)
-		for _, k := range perm[:3] {
+		for _, k := range perm[:2] {
 			out = append(out, config{"all", targets[1+k].name, "css"}, config{"off", targets[1+k].name, "css"})
 		}
-		out = append(out, config{"syntax", targets[1+perm[3]].name, "css"}, config{"all", targets[1+perm[3]].name, "global-css"})
+		out = append(out, config{"syntax", targets[1+perm[2]].name, "css"}, config{"all", targets[1+perm[3]].name, "global-css"})
 		return out
 	}
 	old := targets[1+rng.Intn(3)].name
@@ -578,7 +578,7 @@ func Run(r *core.Run) {
 		wg.Add(1)
 		go func() {
 			defer wg.Done()
-			runMC(r, pickS(r, "CssMC.quick.cfg", "CssMC.thorough.cfg"), 3, func(c *Case) {
+			runMC(r, pickS(r, "CssMC.quick.cfg", "CssMC.thorough.cfg"), r.Pick(3, 4), func(c *Case) {
 				var id []interface{}
 				json.Unmarshal(c.ID, &id)
 				c.Family = "mc"
@@ -601,7 +601,7 @@ func Run(r *core.Run) {
 		wg.Add(1)
 		go func() {
 			defer wg.Done()
-			impCases = runImportTLC(r, graphs, 2)
+			impCases = runImportTLC(r, graphs, r.Pick(2, 1))
 		}()
 	}
 	g := &gen{voc: voc, rng: rand.New(rand.NewSource(r.Seed))}
@@ -611,7 +611,7 @@ func Run(r *core.Run) {
 	}
 	sheets := g.Sheets(nSheets, r.Pick(4, 5))
 	t0 := time.Now()
-	got := runGen(r, sheets, r.Pick(1, 2), 3)
+	got := runGen(r, sheets, r.Pick(1, 2), r.Pick(3, 2))
 	r.Logf("CssGen: %d sheets -> %d cases in %.1fs", len(sheets), len(got), time.Since(t0).Seconds())
 	wg.Wait()
 	sort.Slice(mcCases, func(i, j int) bool { return mcCases[i].Name < mcCases[j].Name })
@@ -644,8 +644,8 @@ func Run(r *core.Run) {
 			}
 		}
 		rng.Shuffle(len(casc), func(i, j int) { casc[i], casc[j] = casc[j], casc[i] })
-		if len(casc) > 250 {
-			casc = casc[:250]
+		if len(casc) > 350 {
+			casc = casc[:350]
 		}
 		mcCases = append(keep, casc...)
 	}
